@@ -5,26 +5,49 @@ import Rbacx.Proofs.EngineTranslated
   the SINK BLOCK of `Guard._evaluate_core_async` (core/engine.py; `Generated.Src.engine_sinks`, a `Rbacx.PyS.Trace`) equal to its
   specification, and to connect that with the events of the model's `finishDecision`.  Nothing here depends on the generated code.
 
-  * `guarded_call`: the shape the source uses three times — `try: x = <sink>; if x is not None: if iscoroutinefunction(x): await x(args…)
-    else: x(args…) except Exception: <log>` — makes exactly one call when the sink is there, none when it is absent, and ends `next`
-    whatever the sink does (stated on the emitted text, for every sink, label and argument list);
+  * `guarded_call_maybe`: the shape the source uses three times since the repair of finding F21 — `try: x = <sink>; if x is not None:
+    await maybe_await(x(args…)) except Exception: <log>` — makes the sink's work run exactly once when the sink is there, in EVERY
+    spelling (`def`, `async def`, `def` returning an awaitable), never when it is absent, and ends `next` whether the work returns or
+    raises, at call time or at await time (stated on the emitted text, for every sink, label and argument list);
+  * `guarded_call_old` / `f21_old_shape_drops_awaitable`: the shape BEFORE the repair (`if iscoroutinefunction(x): await x(args…) else:
+    x(args…)`) does the same for the `def` and `async def` spellings only: for a `def` returning an awaitable the work never runs
+    (finding F21, kernel-checked);
   * `expectedCalls`: the call list the block has to produce; `encSinkCall`: a model `Event` as the sink call that carries it.
 -/
 namespace Rbacx.PyS
 open Rbacx Rbacx.Py PyVal
 
-/-- the call a sink receives when it is there -/
+/-- the work a sink does when it is there: once -/
 def sinkCall (label : String) (s : Sink) (args : List PyVal) : List Call :=
-  if s.isNotNone then [⟨label, s.isCoro, args⟩] else []
+  if s.isNotNone then [⟨label, args⟩] else []
 
-/-- **one guarded sink call**: the `try / if x is not None / if iscoroutinefunction(x) / except Exception` shape makes the call exactly
-    when the sink is there — awaited iff it is a coroutine function — and never lets anything out, whether the sink returns or raises -/
-theorem guarded_call (label : String) (s : Sink) (args : List PyVal) :
+/-- **one guarded sink call (the repaired text)**: `try / if x is not None / await maybe_await(x(args…)) / except Exception` makes the
+    sink's work run exactly once when the sink is there — whatever its spelling — and never lets anything out, whether the work
+    returns or raises -/
+theorem guarded_call_maybe (label : String) (s : Sink) (args : List PyVal) :
+    tryExcept (if s.isNotNone then callMaybe label s args else next) next = ⟨sinkCall label s args, .next⟩ := by
+  cases s with
+  | absent => rfl
+  | fn sp r => cases r <;> rfl
+
+/-- the text before the repair (`iscoroutinefunction` dispatch) does the same for a plain `def` and an `async def` … -/
+theorem guarded_call_old (label : String) (s : Sink) (args : List PyVal) (h : ∀ r, s ≠ .fn .awaitable r) :
     tryExcept (if s.isNotNone then (if s.isCoro then call label s true args else call label s false args) else next) next =
       ⟨sinkCall label s args, .next⟩ := by
   cases s with
   | absent => rfl
-  | fn c r => cases c <;> cases r <;> rfl
+  | fn sp r =>
+    cases sp with
+    | plain => cases r <;> rfl
+    | coroFn => cases r <;> rfl
+    | awaitable => exact absurd rfl (h r)
+
+/-- … **but not for a plain `def` that returns an awaitable (finding F21)**: the call is made without `await`, the awaitable is
+    dropped, the sink's work never runs, nothing is raised -/
+theorem f21_old_shape_drops_awaitable (label : String) (r : Bool) (args : List PyVal) :
+    tryExcept (if (Sink.fn .awaitable r).isNotNone then
+        (if (Sink.fn .awaitable r).isCoro then call label (.fn .awaitable r) true args else call label (.fn .awaitable r) false args)
+      else next) next = ⟨[], .next⟩ := rfl
 
 /-- what the sink block has to do: `inc`, then `observe` (both only when a metrics object is configured), then `log` (only when a
     logger sink is configured), each only when the object has that attribute -/
@@ -43,8 +66,8 @@ def encSinkCall (dur : PyVal) (e : Event) : String × List PyVal :=
   | .metricObserve _ => ("self.metrics.observe", [.str "rbacx_decision_seconds", dur, encEvent e])
   | .audit .. => ("self.logger_sink.log", [encEvent e])
 
-theorem sinkCall_present (label : String) (c r : Bool) (args : List PyVal) :
-    sinkCall label (.fn c r) args = [⟨label, c, args⟩] := rfl
+theorem sinkCall_present (label : String) (sp : Spelling) (r : Bool) (args : List PyVal) :
+    sinkCall label (.fn sp r) args = [⟨label, args⟩] := rfl
 
 theorem sinkCall_absent (label : String) (args : List PyVal) : sinkCall label .absent args = [] := rfl
 
